@@ -17,7 +17,8 @@
 From Coq Require Import ZArith List Bool.
 From V Require Import Base.Int Base.IO Model.TzParser Model.TzRule Model.TzLookup.
 From V Require Import Spec.TzWriter.
-From V Require Import Proofs.TzCommon Proofs.TzEval Proofs.TzGrammar Proofs.TzRoundtrip Proofs.TzWriterRoundtrip Proofs.C16.
+From V Require Import Proofs.TzCommon Proofs.TzEval Proofs.TzGrammar Proofs.TzRoundtrip Proofs.TzWriterRoundtrip Proofs.TzWriterFull Proofs.TzWriterBytes Proofs.C16.
+From V Require Import Proofs.TzFooterSpec.
 Import ListNotations.
 Open Scope Z_scope.
 
@@ -147,6 +148,100 @@ Print Assumptions C16_writer_roundtrip_v23_partial.
 Example C16_writer_roundtrip_inhabited : zone_writable 4 example_zone_v1 /\ zone_writable 8 example_zone_v2.
 Proof. exact example_zones_writable. Qed.
 Print Assumptions C16_writer_roundtrip_inhabited.
+
+(* The complete layout of RFC 8536 section 3 (Spec/TzWriter.v, second half): leap-second records
+   (32-bit in version 1, 64-bit in version 2 / 3), the standard/wall and UT/local indicator arrays
+   (each absent or one flag per type, a UT flag only together with the standard flag; they are not
+   part of the zone value, the writer takes them as extra arguments and the reader validates and
+   drops them) and, for version 2 / 3, the footer with the rule printed by [print_rule]; the 32-bit
+   block of a version 2 / 3 file may be that of any zone [z32] the layout can lay out (the reader
+   skips it; [slim_zone] gives the minimal file).
+   [zone_writable_full ts z std ut]: at least one type, offsets inside i32 other than i32::MIN, names
+     absent or 3..7 permitted characters, designation table of at most 256 bytes, transition times in
+     the i32 (ts = 4) / i64 (ts = 8) range and strictly increasing, type indices in range, at most
+     2^32 - 1 transitions and leap records (the count fields are 32 bits wide); leap table as in
+     RFC 8536 3.2 = exactly what TimeZoneRef::validate accepts: first occurrence >= 0 with
+     correction +1 or -1, every later occurrence at least 2419199 s after the previous one with the
+     correction changed by exactly one; [indicators_ok].
+   [footer_writable ver z]: no rule, or a rule printable in the grammar of the version (extended
+     rule times only in version 3) with [footer_consistent z = true]: the decidable check of
+     TimeZoneRef::validate that the rule, evaluated by the reader's own rule evaluation at the last
+     transition time (after the leap-second correction), yields the last transition's type (offset,
+     DST flag and designation); vacuous when there is no transition.
+   REMAINING GAP with respect to the property text: the writer is one conforming writer (every type
+   has its own designation entry, names quoted, fixed-width numbers), not every conforming writer;
+   [footer_consistent] refers to the reader's rule evaluation; [C16_writer_roundtrip_v23_spec] below
+   replaces it by [footer_agrees], stated against the oracles of Spec/Zone.v, for the rules and
+   instants inside the premise of property C05. *)
+Theorem C16_writer_roundtrip_v1 : forall z std ut, zone_writable_full 4 z std ut -> extra_rule z = None ->
+  parse (write_tzif_v1_full z std ut) = Val (Ok z).
+Proof. exact writer_roundtrip_v1_full. Qed.
+Print Assumptions C16_writer_roundtrip_v1.
+Theorem C16_writer_roundtrip_v23 : forall ver z32 std32 ut32 z std ut,
+  (ver = 50 \/ ver = 51) -> block_layout 4 z32 std32 ut32 ->
+  zone_writable_full 8 z std ut -> footer_writable ver z ->
+  parse (write_tzif_v23_full ver z32 std32 ut32 z std ut) = Val (Ok z).
+Proof. exact writer_roundtrip_v23_full. Qed.
+Print Assumptions C16_writer_roundtrip_v23.
+(* the writers of the two partial theorems above are the instances without indicator arrays *)
+Theorem C16_writer_full_extends : forall z,
+  write_tzif_v1_full z [] [] = write_tzif_v1 z /\
+  (forall ver, extra_rule z = None -> write_tzif_v23_full ver slim_zone [] [] z [] [] = write_tzif_v23 ver z).
+Proof. exact (fun z => conj (write_v1_full_extends z) (fun ver => write_v23_full_extends ver z)). Qed.
+Print Assumptions C16_writer_full_extends.
+(* what the writer emits is a byte string of admissible size: the hypothesis [data_ok] of the
+   totality and soundness theorems above (here the 32-bit block is that of a writable zone, e.g.
+   [slim_zone]) *)
+Theorem C16_writer_output_ok_v1 : forall z std ut, zone_writable_full 4 z std ut -> data_ok (write_tzif_v1_full z std ut).
+Proof. exact writer_output_ok_v1. Qed.
+Print Assumptions C16_writer_output_ok_v1.
+Theorem C16_writer_output_ok_v23 : forall ver z32 std32 ut32 z std ut, (ver = 50 \/ ver = 51) ->
+  zone_writable_full 4 z32 std32 ut32 -> zone_writable_full 8 z std ut -> footer_writable ver z ->
+  data_ok (write_tzif_v23_full ver z32 std32 ut32 z std ut).
+Proof. exact writer_output_ok_v23. Qed.
+Print Assumptions C16_writer_output_ok_v23.
+Example C16_slim_zone_writable : zone_writable_full 4 slim_zone [] [].
+Proof. exact slim_writable. Qed.
+Print Assumptions C16_slim_zone_writable.
+Theorem C16_footer_consistent_fixed : forall z l, extra_rule z = Some (Fixed l) -> leap_seconds z = [] ->
+  (forall last, last_of (transitions z) = Some last ->
+     -9223372036854775808 < tr_time last <= 9223372036854775807 /\
+     index (local_time_types z) (tr_idx last) = Val l) ->
+  footer_consistent z = true.
+Proof. exact footer_consistent_fixed. Qed.
+Print Assumptions C16_footer_consistent_fixed.
+(* The footer hypothesis against the oracles instead of the reader's code.  [footer_agrees z]: when
+   the zone has a rule and a last transition (time t, an i64 above i64::MIN), let u = t less the
+   correction of the last leap record before t ([corr_before], u an i64); then the last
+   transition's type is the rule's type at u: the type of a rule without daylight saving time, or,
+   for an alternating rule satisfying the premise of property C05 around u ([rule_hyps]: |u| <= 10^15,
+   offsets below a day, both switches more than a day inside the years y-2..y+1 and in the same
+   order in y-1 and y), the daylight type exactly when the calendar oracle [rule_is_dst] says so
+   (Spec/Zone.v; tied to AlternateTime::find_local_time_type by C05_rule_offset_spec). *)
+Theorem C16_footer_agrees_consistent : forall z, leaps_spaced (leap_seconds z) ->
+  zlen (leap_seconds z) <= 4294967295 -> footer_agrees z -> footer_consistent z = true.
+Proof. exact footer_agrees_consistent. Qed.
+Print Assumptions C16_footer_agrees_consistent.
+Theorem C16_writer_roundtrip_v23_spec : forall ver z32 std32 ut32 z std ut,
+  (ver = 50 \/ ver = 51) -> block_layout 4 z32 std32 ut32 -> zone_writable_full 8 z std ut ->
+  match extra_rule z with Some r => rule_printable r (footer_ext ver) | None => True end ->
+  footer_agrees z ->
+  parse (write_tzif_v23_full ver z32 std32 ut32 z std ut) = Val (Ok z).
+Proof. exact writer_roundtrip_v23_spec. Qed.
+Print Assumptions C16_writer_roundtrip_v23_spec.
+Example C16_footer_agrees_inhabited : footer_agrees example_berlin.
+Proof. exact example_berlin_agrees. Qed.
+Print Assumptions C16_footer_agrees_inhabited.
+(* inhabited: a version-1 zone with leap records and one indicator array; a Berlin-like zone in
+   leap-second time with both arrays and the footer <CET>-01:00:00<CEST>-02:00:00,M03.5.0/02:00:00,M10.5.0/03:00:00
+   (version 2 and version 3), consistent with its last transition; the admissible first blocks *)
+Example C16_writer_roundtrip_full_inhabited :
+  (zone_writable_full 4 example_full_v1 example_full_v1_std [] /\ extra_rule example_full_v1 = None) /\
+  (zone_writable_full 8 example_berlin example_berlin_std example_berlin_ut /\
+   footer_writable 50 example_berlin /\ footer_writable 51 example_berlin) /\
+  block_layout 4 slim_zone [] [] /\ block_layout 4 example_full_v1 example_full_v1_std [].
+Proof. exact example_full_zones_writable. Qed.
+Print Assumptions C16_writer_roundtrip_full_inhabited.
 
 (** *** Witnesses *)
 Example C16_example_file_accepted :
